@@ -14,7 +14,8 @@ RULE = ("resolver: every valid 3D setting (344) and 2D setting in every presenta
         "reciprocal rate; each one of the four parameters left as -1 or none), every near-miss (each parameter +-1, x2, /2, "
         "non-powers of two, rates -16..-2, 0.3, 3, 5, 64) and a seeded sample of the remaining grid: exception class or result "
         "vs the Lean model; every *accepted* setting is then used for a tiny conversion (NumPy / 2D SEG-Y route) whose output "
-        "must be conformant and faithful (C01/C03 oracles); every valid setting must be accepted")
+        "must be conformant and faithful (C01/C03 oracles); every valid setting must be accepted"
+        "; the command-line front end (sgy2sgz --bits-per-voxel/--blockshape, 3D and 2D, defaults and -1): header of the written file or refusal vs the model on the setting the options denote")
 
 DIMS = [-1, 1, 2, 3, 4, 5, 6, 8, 12, 16, 32, 64, 100, 128, 256, 512, 1024, 2048, 4096, 8192]
 RATES = [-16, -8, -5, -4, -3, -2, 0.25, 0.5, 1, 2, 3, 4, 5, 8, 16, 32, 64, 0.3, 0.75, 1.5, '0.25', '0.5', '2', '4', '0.3',
@@ -83,6 +84,47 @@ def tiny_conversion(ctx, q, bs, desc):
     probs += spec.conformance_problems(out)
     for p in probs:
         ctx.fail(f'accepted setting gives an unfaithful file: {p}', desc)
+
+
+def cli_route(ctx, model, rng):
+    """the command-line front end: `sgy2sgz --bits-per-voxel B [--blockshape I X Z]` (integers; a negative B is a reciprocal,
+    an omitted blockshape the route's default) must resolve exactly as the API does for the same setting — K: Model/Config on
+    the setting the options denote vs the header of the file the command writes (or its refusal)"""
+    from click.testing import CliRunner
+    from seismic_zfp import cli
+    cube3, line2 = ctx.path('cli3.sgy'), ctx.path('cli2.sgy')
+    mksegy.make_segy(cube3, gen.cube(rng, (5, 6, 9)), fmt=5)
+    mksegy.make_segy(line2, gen.cube(rng, (1, 7, 9)), two_d=True, fmt=5)
+    opts = [(b, bs) for b in (4, 1, 2, 8, 16, -2, -4, -1, 3, 0) for bs in (None, (4, 4, -1), (8, 8, -1), (-1, 4, 256), (4, 4, 512),
+                                                                            (1, 16, -1), (1, -1, 512), (1, 64, 512))]
+    pick = [opts[i] for i in rng.choice(len(opts), size=14 if ctx.quick else len(opts), replace=False)]
+    for bits, bs in pick:
+        for is2d, src in ((False, cube3), (True, line2)):
+            if bs is not None and (bs[0] == 1) != is2d:
+                continue
+            eff = bs if bs is not None else ((1, 16, -1) if is2d else (4, 4, -1))
+            out = ctx.path('cli.sgz')
+            if os.path.exists(out):
+                os.unlink(out)
+            args = ['sgy2sgz', src, out, '--bits-per-voxel', str(bits)] + (['--blockshape'] + [str(v) for v in bs] if bs else [])
+            r = env.quiet(CliRunner().invoke, cli.cli, args)
+            desc = {'cli': args[3:], 'is2d': is2d}
+            ctx.case(('cli', bits, bs, is2d), sample=desc if len(ctx.samples) < 6 else None)
+            ctx.stats['cli_invocations'] += 1
+            fr = frac_of(bits)
+            m = model.ask(f'cfg {fr.numerator} {fr.denominator} {eff[0]} {eff[1]} {eff[2]} {1 if is2d else 0}')
+            ctx.stats['corr_requests'] += 1
+            if r.exit_code == 0 and os.path.exists(out):
+                h, _ = spec.read_header(out)
+                real = f'ok {h.q} {h.bs[0]} {h.bs[1]} {h.bs[2]}'
+                for p_ in spec.conformance_problems(out):
+                    ctx.fail(f'file written by the command line is not conformant: {p_}', desc)
+            else:
+                real = 'err ' + (type(r.exception).__name__ if r.exception is not None else f'exit {r.exit_code}')
+            if m.split()[0] != real.split()[0] or (m.startswith('ok') and m != real):
+                ctx.corr_fail('Model.Config/cli', ' '.join(args[3:]), m, real, desc)
+            if real.startswith('err') and os.path.exists(out) and os.path.getsize(out) > 0 and m.startswith('err'):
+                pass   # (a refused setting may leave an empty output file behind: not part of C19)
 
 
 def run(ctx):
@@ -168,6 +210,7 @@ def run(ctx):
             if rng.random() < .3:
                 b[0] = 1
                 check(r, b, True, convert=True)
+        cli_route(ctx, model, gen.rng_for(ctx.seed, 'c19-cli'))
     finally:
         model.close()
 
